@@ -547,7 +547,9 @@ def _write_scan(fn, frames, omega):
         g = h.create_group("1.1")
         g.attrs["nframes"] = len(frames); g.attrs["shape0"] = 3; g.attrs["shape1"] = 4
         g["row"] = np.concatenate(rows).astype(np.uint16); g["col"] = np.concatenate(cols).astype(np.uint16)
-        g["intensity"] = np.ones(sum(nnz), np.float32); g["nnz"] = np.array(nnz, np.int32)
+        # all above zero and all different (no equal-valued neighbours: the local-maximum labelling is well defined on them too)
+        ntot = sum(nnz)
+        g["intensity"] = (1.0 + (np.arange(ntot) * 7) % 13 + np.arange(ntot) * 1e-3).astype(np.float32); g["nnz"] = np.array(nnz, np.int32)
         g["measurement/rot"] = np.asarray(omega, float)
         g["measurement/dty"] = np.zeros(len(frames))
 
@@ -617,19 +619,20 @@ def _run_scanpairs(desc):
             elif any(not same(got2[k], want2[k]) for k in want2):
                 k = [k for k in want2 if not same(got2[k], want2[k])][0]
                 sh.violation("pairscans:overlaps-wrong", dict(case, pair=list(k)), {"got": got2[k], "expected": sorted(want2[k].items())})
-            # history on ONE scan object: labelled a second time in another way (labels counted through the whole scan instead of per
-            # frame), then asked again: the overlaps are those of the labelling the object carries NOW (= a fresh object labelled that way)
+            # history on ONE scan object: labelled a second time in another way (by local maxima instead of connected components; labels
+            # per frame both times, as the overlap code requires), then asked again: the overlaps are those of the labelling the object
+            # carries NOW (= a fresh object labelled that way)
             if idx % 3 == 0:
-                s1.cplabel(threshold=0, countall=True)
+                s1.lmlabel(threshold=0, countall=False, smooth=False)
                 again = PR.pairrow(s1, 7)
                 fresh_ = sf.SparseScan(fn, "1.1")
-                fresh_.cplabel(threshold=0, countall=True)
+                fresh_.lmlabel(threshold=0, countall=False, smooth=False)
                 ref_ = PR.pairrow(fresh_, 7)
 
                 def as_dict(ans):
                     return (ans[0], None if ans[1] is None else sorted((int(a), int(b), int(n_)) for a, b, n_ in ans[1]))
                 if set(again) != set(ref_) or any(as_dict(again[k]) != as_dict(ref_[k]) for k in ref_):
-                    sh.violation("pairrow[scan labelled a second time]:overlaps-are-not-those-of-the-current-labels", dict(case, history=["cplabel(countall=False)", "pairrow", "cplabel(countall=True)", "pairrow"]),
+                    sh.violation("pairrow[scan labelled a second time]:overlaps-are-not-those-of-the-current-labels", dict(case, history=["cplabel(countall=False)", "pairrow", "lmlabel(countall=False)", "pairrow"]),
                                  {"got": {str(k): as_dict(v) for k, v in again.items()}, "expected": {str(k): as_dict(v) for k, v in ref_.items()}})
                 s1 = labelled(fn)
                 s1.sinorow = 7
